@@ -160,7 +160,18 @@ def f_selection(draw, i):
             "FSelUse%d ::= SEQUENCE { p a < FSelCh%d, q c < FSelCh%d OPTIONAL }\n" % (i, i, i, i)), "selection-type"
 
 
-FRAGMENTS = [f_param_type, f_param_value, f_values, f_named, f_nested_anon, f_neg_default, f_components_of, f_class,
+def f_alias_recursion(draw, i):
+    tag1 = _n(draw, "", "[APPLICATION %d] EXPLICIT " % (i + 1), "[%d] " % (i + 3))
+    tag2 = _n(draw, "", "[APPLICATION %d] EXPLICIT " % (i + 11), "[%d] IMPLICIT " % (i + 5))
+    hops = draw(st.integers(1, 2))
+    kind = _n(draw, "SEQUENCE { next FAr%d OPTIONAL }", "CHOICE { leaf NULL, node FAr%d }", "SEQUENCE { kids SEQUENCE OF FAr%d }")
+    if hops == 1:
+        return ("FAr%d ::= %sFAr%dx\nFAr%dx ::= %s\n" % (i, tag1, i, i, kind % i)), "recursion-through-alias.1"
+    return ("FAr%d ::= %sFAr%dx\nFAr%dx ::= %sFAr%dy\nFAr%dy ::= %s\n" % (i, tag1, i, i, tag2, i, i, kind % i)), \
+        "recursion-through-alias.2"
+
+
+FRAGMENTS = [f_alias_recursion, f_param_type, f_param_value, f_values, f_named, f_nested_anon, f_neg_default, f_components_of, f_class,
              f_strings, f_keywords, f_selection]
 
 
@@ -625,6 +636,30 @@ K_NESTED = "anonymous.nested-collection-element.uncompilable"
 K_DUPROW = "ioc.same-type-in-two-rows.uncompilable"
 K_PNULL = "param.actual-parameter-NULL.assert"
 K_HUGE = "number-beyond-64-bits.emitted-literally"
+K_ALIASREC = "recursion.through-reference-alias.uncompilable"
+
+
+def _alias_in_cycle(text):
+    """a type that is only an (optionally tagged) reference to another type and lies on a reference cycle"""
+    t = re.sub(r"--.*", "", text)
+    rhs = {}
+    for m in re.finditer(r"(?m)^\s*([A-Z][\w-]*)\s*::=(.*?)(?=^\s*[A-Za-z][\w-]*(?:\s*\{[^}]*\})?\s+(?:[\w.-]+\s+)?::=|^\s*END\b)", t, re.S):
+        rhs[m.group(1)] = m.group(2)
+    refs = {n: set(r for r in re.findall(r"(?<![\w&.-])[A-Z][\w-]*", b) if r in rhs) for n, b in rhs.items()}
+    alias = [n for n, b in rhs.items()
+             if re.fullmatch(r"\s*(?:\[[^\]]*\]\s*(?:IMPLICIT|EXPLICIT)?\s*)*[A-Z][\w-]*\s*", b) and refs[n]]
+    for a in alias:
+        if not (refs[a] & set(alias)):      # one alias hop compiles; two consecutive hops on a cycle do not
+            continue
+        seen, todo = set(), list(refs[a])
+        while todo:
+            x = todo.pop()
+            if x == a:
+                return True
+            if x not in seen:
+                seen.add(x)
+                todo += list(refs.get(x, ()))
+    return False
 
 
 def _huge_literal(text):
@@ -637,6 +672,8 @@ KNOWN_CLASSES = {
     K_NESTED: lambda sig, text, flags: ("storage class" in sig or "must use '_' tag" in sig) and " OF" in text,
     K_DUPROW: lambda sig, text, flags: "redefinition of enumerator" in sig and _dup_rows(text),
     K_HUGE: lambda sig, text, flags: sig.startswith("cc:") and ("too large" in sig or "literal" in sig) and _huge_literal(text),
+    K_ALIASREC: lambda sig, text, flags: sig.startswith("cc:") and ("unknown type name" in sig or "incomplete type" in sig
+                                                                      or "must use '_' tag" in sig) and _alias_in_cycle(text),
     K_PNULL: lambda sig, text, flags: sig.startswith("asn1c:signal6") and "find_terminal_thing" in sig
     and re.search(r"\{\s*NULL\s*\}", text) is not None,
 }
@@ -661,6 +698,7 @@ KNOWN_TRIGGERS = {
     K_NESTED: lambda text, flags: "-fcompound-names" in flags and nested_anonymous_elements(text),
     K_DUPROW: lambda text, flags: _dup_rows(text),
     K_HUGE: lambda text, flags: _huge_literal(text),
+    K_ALIASREC: lambda text, flags: _alias_in_cycle(text),
     K_PNULL: lambda text, flags: re.search(r"[\w-]\s*\{\s*NULL\s*\}", text) is not None,
 }
 
